@@ -789,6 +789,7 @@ pub fn run(task: &str) -> Option<EvalResult> {
         "relations_ground" => Some(crate::relations::relations_ground()),
         "builders_ground" => Some(crate::builders::builders_ground()),
         "paths_ground" => Some(crate::paths::paths_ground()),
+        "merkle_ground" => Some(crate::merkle::merkle_ground()),
         "pos_v2_hash" => Some(pos_v2_hash()),
         "datalayer_ground" => Some(datalayer_ground()),
         "bls_cache_ground" => Some(bls_cache_ground()),
